@@ -520,6 +520,16 @@ def run(p, report, tier):
     _proxy17 = c01.Report_proxy(report, {"R1.3": "R8.17"})
     for f in funcs:
         c01.check_nan_discipline(p, _proxy17, f, _facts17[id(f.node)])
+    report.rule("R8.18", "a model refitted for a hypothetical label depends on the LABELED rows only: the index path relabels the "
+                "candidate inside X (n rows), the feature-row path appends it (n + 1 rows), so any statistic over all rows of "
+                "fit's input (a bandwidth from np.var(X)) differs between the two ways of addressing the same candidate "
+                "(shared with C12 R12.1 on the regressors' fit functions)", floor=2)
+    from . import c12 as _c12
+    _sub12 = type(report)("C12")
+    _c12.run(p, _sub12, "quick")
+    for o in _sub12.obligations:
+        if o.rule == "R12.1" and "Regressor" in o.entity:
+            report.add("R8.18", o.entity, o.construct, o.loc, o.ok, detail=o.detail)
     report.rule("R8.15", "candidates given as indices are brought into ONE canonical order before any strategy sees them: on "
                 "its de-duplicating path check_indices binds the indices to np.unique(...) itself (sorted), so X_cand has the "
                 "row order that `candidates=None` produces - strategies whose clustering / tie-breaking follows the row order "
@@ -871,6 +881,14 @@ def check_candidate_count_uses(p, report, funcs):
             st = x
             while st in parents and not isinstance(st, ast.stmt):
                 st = parents[st]
+            if verdict[0] == "comparison" and isinstance(st, ast.If) and any(x is y for y in ast.walk(st.test)):
+                # a comparison of the count that selects between two COMPUTATIONS of the result (one arm returns) is no
+                # validation: the score of a candidate then depends on how many candidates are offered
+                arms = [st.body, st.orelse]
+                returns = any(isinstance(z, ast.Return) and z.value is not None for arm in arms for y in arm for z in ast.walk(y))
+                raises = any(isinstance(z, ast.Raise) for y in st.body for z in ast.walk(y))
+                if returns and not raises:
+                    verdict = ("score", "a branch that returns another result")
             ok = verdict[0] != "score"
             report.add("R8.7", f.qual, f"candidate count in `{norm_stmt(st, 70)}`", f"{f.file}:{x.lineno}", ok,
                        detail=f"used as {verdict[0]} {verdict[1]}".strip() if ok else
